@@ -501,6 +501,44 @@ def gen_passive_close(rng, variant=None):
     return {"mode": "net", "cfg": {"hosts": hosts}, "script": script, "flavour": "passive-close"}
 
 
+def gen_failed_connect(rng):
+    """connects through the shim (TcpStream::connect) that fail after their first poll -- refused on
+    loopback, refused by another host, refused on the host's own address -- or are abandoned while
+    pending (unowned destination); then explicit binds on exactly the (address, ephemeral port)
+    each attempt was given, wildcard binds on those ports, and port 0 with the cursor moved back:
+    a failed or dropped connect must leave no socket behind."""
+    hosts = [["10.0.0.1", "10.0.0.2"], ["10.0.1.1"]]
+    h = rng.randrange(2)
+    cur = rng.choice([49152, 49200, 60000, 65533, 65534, 65535])
+    eph = lambda k: 49152 + (cur - 49152 + k) % 16384
+    own = hosts[h][0]
+    other = hosts[1 - h][0]
+    kinds = [("127.0.0.1", "127.0.0.1"), (other, own), (own, own), ("127.0.0.9", "127.0.0.1"), ("10.9.9.9", own)]
+    rng.shuffle(kinds)
+    kinds = kinds[:rng.randrange(2, 6)]
+    script = [["set_cursor", h, cur]]
+    nh = 0
+    used = []
+    for k, (dst, lip) in enumerate(kinds):
+        script += [["connect", h, [dst, rng.choice([7000, 7001])]], ["pump"], ["poll", nh]]
+        if dst == "10.9.9.9":
+            script += [["close", nh]]                 # still pending: dropping the future closes the fd
+        used.append((lip, eph(k)))
+        nh += 1
+    for lip, port in used:
+        r = rng.random()
+        if r < 0.5:
+            script += [["listen", h, lip, port], ["close", nh]]
+            nh += 1
+        script += [["listen", h, "0.0.0.0", port], ["close", nh]]
+        nh += 1
+    script += [["set_cursor", h, cur]]
+    for _ in range(len(used)):
+        script += [["listen", h, rng.choice(["0.0.0.0", own, "127.0.0.1"]), 0]]
+    script += [["recv_all"]]
+    return {"mode": "net", "cfg": {"hosts": hosts}, "script": script, "flavour": "failed-connect"}
+
+
 DST4 = ["0.0.0.0", "127.0.0.2", "127.255.255.254", "127.0.0.255", "10.9.9.9", "10.0.1.255", "255.255.255.255"]
 DST6 = ["::", "::1", "fd00::99", "::ffff:10.0.0.1", "::ffff:127.0.0.1", "::ffff:0.0.0.0", "::2"]
 
